@@ -138,11 +138,35 @@ def elide_obj(o_real, fmt):
 MULTI = ("ATTACKS", "DISPLAYBPM")
 
 
+def failing_str():
+    """an EARLIER serialization in the same thread that raises part-way (an unrelated simfile whose second chart has no
+    note data / an empty object): whatever it leaves behind must not show in the next one"""
+    from simfile.ssc import SSCSimfile, SSCChart
+    from simfile.sm import SMSimfile
+    bad = SSCSimfile(string="#VERSION:0.83;\n#TITLE:unrelated;\n#NOTEDATA:;\n#CREDIT:left over;\n#NOTES:0000;\n")
+    c = SSCChart()
+    c["CREDIT"] = "left over too"
+    bad.charts.append(c)
+    for victim in (bad, c, SSCSimfile(string=""), bad.charts):
+        try:
+            str(victim)
+        except Exception:  # noqa
+            pass
+    sm = SMSimfile(string="#TITLE:unrelated;\n")
+    sm["ARTIST"] = 5
+    try:
+        str(sm)
+    except Exception:  # noqa
+        pass
+
+
 def ser_record(sf, rid, text_limit=2500):
     """serialize sf, re-parse strictly with its own class, re-serialize, auto-detect."""
     import simfile
     from msdparser import parse_msd, MSDParserError
     fmt = fmt_of(sf)
+    if isinstance(rid, int) and rid % 5 == 3:
+        failing_str()
     rec = {"t": "ser", "id": rid, "fmt": fmt, "level": "text", "obj": proj(sf), "serst": "ok",
            "text": [], "lexst": "ok", "params": [],
            "re": {"st": "none", "items": [], "charts": []}, "stable": False, "det": "", "eq": True}
@@ -280,6 +304,9 @@ def rand_key(rng, forbid=("NOTES",), allow_meta=True):
         k = "".join(rng.choice(KEY_CHARS) for _ in range(n))
         if allow_meta and rng.random() < 0.15:
             k += rng.choice([":", ";", "\\", "//", " ", "猫"]) + rng.choice(KEY_CHARS)
+        if allow_meta and rng.random() < 0.1:
+            # blanks at either end belong to the key (" K", "TITLE ", "X\t")
+            k = rng.choice([" " + k, k + " ", k + "\t", "  " + k + " ", "TITLE ", " VERSION", "NOTES "])
         if k not in forbid and k.upper() == k and not py_gap(k) and "#" not in k:
             return k
     return "K"
